@@ -52,7 +52,12 @@ def base_desc(mode, viz=False, maps=False):
 
 
 def case_base(case):
-    return base_desc(case["base"], case.get("viz"), case.get("maps"))
+    if case.get("routes"):
+        d = C.routes_project()
+        d["cfg"]["validation_library"] = case["base"]
+        return d
+    d = base_desc(case["base"], case.get("viz") or bool(case.get("vizvia")), case.get("maps"))
+    return d
 
 
 def sched_of(desc):
@@ -66,14 +71,24 @@ def run_history(case):
     steps = [["run", sched_of(desc), False, None]]
     obs = []
     with vlib.Sandbox("c08h") as sb:
-        w = C.World(sb, case["entry"], case.get("conf", "cfile"))
-        w.set_desc(desc)
+        via = case.get("vizvia")
+        w = C.World(sb, case["entry"], "tauri" if via == "tauri" else case.get("conf", "cfile"))
+        extra = ["--visualize-deps"] if via == "flag" else []
+
+        def put(dsc):
+            if via == "flag":
+                on_disk = copy.deepcopy(dsc)
+                on_disk["cfg"]["visualize_deps"] = False          # the flag supplies it
+                w.set_desc(on_disk)
+            else:
+                w.set_desc(dsc)
+        put(desc)
 
         def observe(r):
             mi, di, oo = C.stale_files(w, desc)
             return {"decision": r["decision"], "missing": [C.model_file_name(n) for n in mi],
                     "different": [C.model_file_name(n) for n in di], "order_only": oo, "text": r["text"][-200:]}
-        obs.append(observe(w.run()))
+        obs.append(observe(w.run(extra=extra)))
         for op in case["ops"]:
             if op.startswith("cache:"):
                 # the record rewritten as other versions of the tool would leave it: a key missing, an unknown key.
@@ -97,10 +112,10 @@ def run_history(case):
                 steps.append(["dropcache"] if n == C.CACHE else ["delete", C.model_file_name(n)])
             else:
                 desc = C.apply_edit(desc, op)
-                w.set_desc(desc)
+                put(desc)
                 steps.append(["set", C.sx_project(desc), C.sx_cfg(desc["cfg"])])
             steps.append(["run", sched_of(desc), False, None])
-            obs.append(observe(w.run()))
+            obs.append(observe(w.run(extra=extra)))
     base = case_base(case)
     return sx([C.sx_project(base), C.sx_cfg(base["cfg"]), steps]), obs, desc
 
@@ -310,6 +325,38 @@ def event_histories(tier, rng):
     return cases
 
 
+def route_histories(tier, rng):
+    """edits confined to the definition of a type reachable through one route only (event payload, nested below it, enum
+    payload, channel message, nested below it, error position) x edit kinds"""
+    cases = []
+    for entry in ("cli", "build"):
+        for mode in ("none", "zod"):
+            for e in C.ROUTE_EDITS:
+                cases.append({"entry": entry, "base": mode, "routes": True, "ops": [e]})
+        for _ in range(40 if tier == "quick" else 400):
+            cases.append({"entry": entry, "base": rng.choice(["none", "zod"]), "routes": True,
+                          "ops": [rng.choice(C.ROUTE_EDITS + ["events_off", "event_name", "cmd_swap"]) for _ in range(rng.randint(2, 3))]})
+    return cases
+
+
+LOSABLE = ["types.ts", "commands.ts", "events.ts", "index.ts", "dependency-graph.txt", "dependency-graph.dot"]
+
+
+def loss_histories():
+    """the loss of every file a forced run writes, for every way the optional graph output can be switched on: in
+    typegen.json (-c / build path), in tauri.conf.json (both routes), by the --visualize-deps flag (CLI)"""
+    cases = []
+    for entry, vias in (("cli", ("cfile", "tauri", "flag")), ("build", ("cfile", "tauri"))):
+        for via in vias:
+            for mode in ("none", "zod"):
+                for a in LOSABLE:
+                    cases.append({"entry": entry, "base": mode, "vizvia": via, "ops": ["delete:" + a]})
+                for a, b in (("dependency-graph.txt", "dependency-graph.dot"), ("events.ts", "dependency-graph.dot"),
+                             ("index.ts", "dependency-graph.txt")):
+                    cases.append({"entry": entry, "base": mode, "vizvia": via, "ops": ["delete:" + a, "delete:" + b]})
+    return cases
+
+
 def config_histories():
     """all sequences of length <= 2 over the configuration-value edits, through typegen.json / -c and through
     tauri.conf.json, from a base without and with a type mapping"""
@@ -346,7 +393,7 @@ def run(rep):
     outs, oo = eval_histories(witnesses() + regressions("C08"))
     rep.add("corpus", outs)
     rep.add("partition", eval_partition(partition_cases()))
-    cases = config_histories() + event_histories(rep.tier, rng) + history_cases(rep.tier, rng)
+    cases = config_histories() + route_histories(rep.tier, rng) + loss_histories() + event_histories(rep.tier, rng) + history_cases(rep.tier, rng)
     rep.extra["history_distribution"] = distribution(cases)
     total_oo = oo
     for i in range(0, len(cases), 400):
